@@ -17,17 +17,25 @@ def suite():
 sh("git checkout -- . && rm -f tests/zz_demo.rs")
 base = json.load(open("/root/.vp/BASELINE.json"))["stable_pass"]
 base = {t.replace("framehop::integration_tests::", "").replace("framehop::", "", 1) for t in base}
-shutil.copy(demo, os.path.join(wt, "tests", "zz_demo.rs"))
-rc0, out0 = sh("cargo test --offline --test zz_demo 2>&1")
+# DEMO_FLAGS: extra cargo flags for the demo run (e.g. a feature subset); a .sh demo is run with bash instead
+flags = os.environ.get("DEMO_FLAGS", "")
+is_sh = demo.endswith(".sh")
+if is_sh:
+    shutil.copy(demo, os.path.join(wt, "zz_demo.sh"))
+    demo_cmd = "bash zz_demo.sh 2>&1"
+else:
+    shutil.copy(demo, os.path.join(wt, "tests", "zz_demo.rs"))
+    demo_cmd = "cargo test --offline %s --test zz_demo 2>&1" % flags
+rc0, out0 = sh(demo_cmd)
 demo_head = (rc0 == 0)
 rc, out = sh("git apply %s" % patch)
 if rc != 0:
     print("PATCH DOES NOT APPLY", out); sys.exit(1)
-rc1, out1 = sh("cargo test --offline --test zz_demo 2>&1")
-demo_patched_fails = (rc1 != 0) and ("error[" not in out1 and "could not compile" not in out1)
+rc1, out1 = sh(demo_cmd)
+demo_patched_fails = (rc1 != 0) and (is_sh or ("error[" not in out1 and "could not compile" not in out1))
 passed, sout = suite()
 suite_ok = base <= passed
-sh("git checkout -- . && rm -f tests/zz_demo.rs")
+sh("git checkout -- . && rm -f tests/zz_demo.rs zz_demo.sh")
 ok = demo_head and demo_patched_fails and suite_ok
 print("demo passes at HEAD:", demo_head, "| demo fails with patch:", demo_patched_fails, "| baseline pass set intact:", suite_ok, "(%d/%d)" % (len(base & passed), len(base)))
 if not ok:
@@ -36,7 +44,7 @@ if not ok:
 d = os.path.join("/verif/seeded", name)
 os.makedirs(d, exist_ok=True)
 shutil.copy(patch, os.path.join(d, "patch.diff"))
-shutil.copy(demo, os.path.join(d, "demo.rs"))
+shutil.copy(demo, os.path.join(d, "demo.sh" if is_sh else "demo.rs"))
 notes = os.path.splitext(patch)[0].replace("patch", "notes") + ".md"
 if os.path.exists(notes):
     shutil.copy(notes, os.path.join(d, "notes.md"))
@@ -44,6 +52,6 @@ json.dump({"property": prop, "needs_to_manifest": needs,
            "confirmed": {"demo_passes_at_head": demo_head, "demo_fails_with_patch": demo_patched_fails,
                          "baseline_pass_set_intact": suite_ok},
            "ran": ["git apply patch.diff (scratch worktree %s)" % wt, "cargo test --offline --no-fail-fast --lib --test integration_tests",
-                   "cargo test --offline --test zz_demo (demo.rs copied to tests/zz_demo.rs) with and without the patch"]},
+                   (demo_cmd + " with and without the patch")]},
           open(os.path.join(d, "meta.json"), "w"), indent=1)
 print("stored", d)
